@@ -13,6 +13,7 @@ The property's own oracle runs on every step: read-only variables never change, 
 variable as it was, the session stays usable after every statement, NOW() is shifted by the accepted time_zone."""
 import asyncio
 import datetime
+import json
 import os
 import random
 import struct
@@ -66,7 +67,12 @@ def gen_lit(rng, for_type=None):
         "bool": [Lit("1", "i1"), Lit("0", "i0"), Lit("ON", "T"), Lit("OFF", "F"), Lit("TRUE", "T"), Lit("FALSE", "F"), Lit("'OFF'", "s" + hexs("OFF")),
                  Lit("''", "s"), Lit("0.0", "f0:1:" + hexs("0.0")), Lit("2", "i2"), Lit("off", "X"), Lit("'0'", "s" + hexs("0"))],
         "str": [Lit("'abc'", "s" + hexs("abc")), Lit("'ANSI,TRADITIONAL'", "s" + hexs("ANSI,TRADITIONAL")), Lit("''", "s"), Lit("7", "i7"), Lit("2.50", "f2:0:" + hexs("2.5")),
-                Lit("TRUE", "T"), Lit("OFF", "F"), Lit("'it''s'", "s" + hexs("it's")), Lit("'hello world'", "s" + hexs("hello world")), Lit("utf8", "X")],
+                Lit("TRUE", "T"), Lit("OFF", "F"), Lit("'it''s'", "s" + hexs("it's")), Lit("'hello world'", "s" + hexs("hello world")), Lit("utf8", "X"),
+                # values that compare equal in Python though they are different values of different types (1 == True == 1.0):
+                # each assignment stores the text of ITS OWN value, whatever equal value anybody assigned before
+                Lit("1", "i1"), Lit("1.0", "f1:1:" + hexs("1.0")), Lit("0", "i0"), Lit("0.0", "f0:1:" + hexs("0.0")), Lit("FALSE", "F"), Lit("ON", "T"),
+                # strings that spell keywords are strings
+                Lit("'OFF'", "s" + hexs("OFF")), Lit("'on'", "s" + hexs("on")), Lit("'Default'", "s" + hexs("Default")), Lit("'NULL'", "s" + hexs("NULL"))],
         "charset": [Lit("'utf8mb4'", "s" + hexs("utf8mb4")), Lit("'latin1'", "s" + hexs("latin1")), Lit("'utf8'", "s" + hexs("utf8")), Lit("'ascii'", "s" + hexs("ascii")),
                     Lit("'bogus'", "s" + hexs("bogus")), Lit("'dec8'", "s" + hexs("dec8")), Lit("'UTF8MB4'", "s" + hexs("UTF8MB4")), Lit("5", "i5"), Lit("''", "s"),
                     Lit("'binary'", "s" + hexs("binary")), Lit("'cp1251'", "s" + hexs("cp1251"))],
@@ -289,7 +295,7 @@ async def program(chk, rng, idx, steps):
         x = rng.random()
         if x < 0.55:
             sql, ml = gen_set(rng)
-            kind = ("set",)
+            kind = ("set", ml)
         elif x < 0.8:
             sql, ml, kind = gen_hint(rng)
         else:
@@ -321,6 +327,7 @@ async def program(chk, rng, idx, steps):
 def evaluate(chk, out, expect, prog, pidx):
     desc = dict(program=prog, seed=chk.seed, program_index=pidx)
     prev_list = None
+    last_set = None
     for m, ex in zip(out, expect):
         if ex[0] == "skip":
             continue
@@ -328,7 +335,9 @@ def evaluate(chk, out, expect, prog, pidx):
             _, sql, kind, (status, rows), seen = ex
             d = dict(desc, statement=sql)
             chk.count("stmt:" + kind[0])
+            last_set = None
             if kind[0] == "set":
+                last_set = (kind[1], status)
                 chk.count("set-outcome:" + status)
                 if m != status:
                     chk.disagree("SET statement outcome", d, m, status)
@@ -373,6 +382,15 @@ def evaluate(chk, out, expect, prog, pidx):
             if got != want:
                 diff = {k: (want.get(k), got.get(k)) for k in set(want) | set(got) if want.get(k) != got.get(k)}
                 chk.disagree("SHOW VARIABLES after statement = model store", d, diff, "see diff (model, impl)")
+            # ground truth without the model: a quoted string assigned (one assignment, session scope, accepted) to a
+            # string-typed variable reads back as exactly that string, whatever it spells
+            if last_set and last_set[1] == "ok" and last_set[0].startswith("var set V|S|") and " " not in last_set[0][8:]:
+                _, _, vname, tok = last_set[0][8:].split("|")
+                if tok.startswith("s") and type_of(vname) == "str":
+                    text = bytes.fromhex(tok[1:]).decode()
+                    if got.get(vname.lower()) != text:
+                        chk.fail("a quoted string assigned to a string-typed variable does not read back as that string", d,
+                                 dict(variable=vname, assigned=text, read=got.get(vname.lower())))
             if [r[0] for r in rows] != sorted(got):
                 chk.fail("SHOW VARIABLES is not the sorted complete listing", d, [r[0] for r in rows][:5])
             # property oracle: read-only variables never change; a hinted statement changes nothing
@@ -469,6 +487,35 @@ async def version_case(chk):
         await a.finish()
 
 
+def fresh_replay(prog):
+    """SHOW VARIABLES after every statement of prog, on a server in a new interpreter (no state left by earlier sessions)"""
+    import subprocess
+    try:
+        r = subprocess.run([sys.executable, os.path.abspath(__file__), "--fresh-replay"], input=json.dumps(prog), capture_output=True,
+                           text=True, timeout=120)
+        return json.loads(r.stdout.strip().splitlines()[-1])
+    except (subprocess.SubprocessError, ValueError, IndexError):
+        return None
+
+
+def fresh_main():
+    prog = json.loads(sys.stdin.read())
+
+    async def go():
+        a = Peer(mkserver([App()]))
+        await a.login()
+        res = []
+        for sql in prog:
+            await run_sql(a, sql)
+            st, rows = await run_sql(a, "SHOW VARIABLES")
+            res.append([st, rows])
+            if a.done():
+                break
+        await a.finish()
+        return res
+    print(json.dumps(asyncio.run(go())))
+
+
 def main():
     chk = Check("C14", sys.argv[1:])
     chk.rule = ("get after set / frame / DEFAULT and NULL restore the default / unknown is an error (store refinement), read-only variables immutable "
@@ -477,7 +524,7 @@ def main():
     chk.tie(["MimicProps.C14"])
     chk.run_replays(["D14"])
     rng = random.Random(chk.seed * 15485863 + 14)
-    nprog = 2500 if chk.thorough else 60
+    nprog = 2500 if chk.thorough else 240
 
     async def go():
         await version_case(chk)
@@ -489,8 +536,24 @@ def main():
             progs.append((len(alllines), len(lines), expect, prog))
             alllines += lines
         out = drive(alllines)
+        suspects = []
         for pidx, (off, n, expect, prog) in enumerate(progs):
+            before = len(chk.disagreements)
             evaluate(chk, out[off:off + n], expect, prog, pidx)
+            if len(chk.disagreements) > before:
+                suspects.append((pidx, expect, prog))
+        # failing-input search for programs on which model and implementation disagree: what a session reads is determined
+        # by what was assigned IN THAT SESSION, so the same statements on a server in a fresh process must read the same
+        for pidx, expect, prog in suspects[:8]:
+            fresh = fresh_replay(prog)
+            chk.count("fresh-process replay")
+            mine = [[ex[2][0], ex[2][1]] for ex in expect if ex[0] == "list"]
+            if fresh is not None and fresh != mine[:len(fresh)]:
+                k = next(j for j in range(len(fresh)) if fresh[j] != mine[j])
+                a, b = dict(map(tuple, mine[k][1] or [])), dict(map(tuple, fresh[k][1] or []))
+                chk.fail("a variable does not read as the value most recently assigned in its session: the same statements on a "
+                         "server in a fresh process read differently", dict(program=prog[:k + 1], seed=chk.seed, program_index=pidx),
+                         {v: dict(in_this_process=a.get(v), in_a_fresh_process=b.get(v)) for v in set(a) | set(b) if a.get(v) != b.get(v)})
     asyncio.run(go())
     chk.assumptions = [
         "the reduction of a SET / SET_VAR spelling to (scope, name, literal) items is the generator's; sqlglot's parser is trusted to agree "
@@ -502,4 +565,7 @@ def main():
 
 
 if __name__ == "__main__":
-    guarded("C14", main)
+    if sys.argv[1:2] == ["--fresh-replay"]:
+        fresh_main()
+    else:
+        guarded("C14", main)
